@@ -9,7 +9,7 @@ import numpy as np
 
 from .. import attach, gen, problems
 from ..monitors.solver import SolverMonitor
-from ..util import rng_for
+from ..util import maxabs, rng_for
 
 
 def umat_for(rng, name):
@@ -148,6 +148,106 @@ def continuation(run, fem, rep, field, bounds, items, tol, res):
             run.units["success:unload-to-zero"] += 1
 
 
+def case_styles(rep):
+    """Call styles and item kinds beyond the standard loop: homogeneous constraints without ext0, constraints and further
+    loads in the item list, convergence at the last allowed iteration, threaded assembly, another linear solver, Newton
+    without items (x0 + material argument), the generic array Newton."""
+    def fn(run):
+        import felupe as fem
+        rng = rng_for(run.seed, "C07", "styles", rep)
+        mon = SolverMonitor(run).attach()
+        m = "newton.styles"
+        try:
+            fam = ["hexahedron", "quad", "tetra"][rep % 3]
+            mesh, L = problems.box_mesh(fam, rng)
+            kind = "3d" if mesh.dim == 3 else "planestrain"
+            d = mesh.dim
+            # (a) ext0 omitted: the prescribed unknowns go to zero, also from a start with non-zero values there
+            field = problems.field_for(fam, mesh, kind)
+            body = fem.SolidBody(fem.NeoHooke(mu=1.0, bulk=float(rng.uniform(2, 6))), field)
+            grav = fem.SolidBodyForce(field, values=rng.uniform(-0.05, 0.05, d), scale=float(rng.uniform(0.5, 2)))
+            fix = {"fix": fem.Boundary(field[0], fx=0.0)}
+            dof0, dof1 = fem.dof.partition(field, fix)
+            field[0].values[:] = 0.01 * rng.standard_normal(field[0].values.shape)
+            tol = 1e-9
+            res = fem.newtonrhapson(items=[body, grav], dof0=dof0, dof1=dof1, tol=tol, verbose=False)
+            xv = np.concatenate([f.values.ravel() for f in res.x.fields])
+            run.compare(m, "clause=homogeneous-constraints-without-ext0", float(np.max(np.abs(xv[dof0]))), 1e-14,
+                        "newtonrhapson without ext0: the prescribed unknowns of the returned field are not zero", unit="styles:no-ext0", config=("no-ext0", fam))
+            r = sum((it.assemble.multiplier or 1.0) * it.assemble.vector(res.x).toarray().ravel() for it in (fem.SolidBody(body.umat, res.x), grav))
+            run.compare(m, "clause=no-ext0-equilibrium", float(np.linalg.norm(r[dof1]) / (1e-3 + np.linalg.norm(r[dof0]))) / tol, 1.01,
+                        "newtonrhapson without ext0: returned state is not in equilibrium on the free unknowns", unit="styles:no-ext0")
+            # (b) a multi-point constraint in the item list (3D only): equilibrium of the sum of all items
+            if d == 3:
+                mesh2 = mesh.copy()
+                mesh2.update(points=np.vstack([mesh2.points, [L[0] + 0.8, 0.5 * L[1], 0.5 * L[2]]]))
+                f2 = problems.field_for(fam, mesh2, kind)
+                face = np.arange(mesh.npoints)[np.isclose(mesh.points[:, 0], L[0])]
+                c = mesh2.npoints - 1
+                b2 = fem.SolidBody(fem.NeoHooke(mu=1.0, bulk=3.0), f2)
+                mpc = fem.MultiPointConstraint(f2, points=face, centerpoint=c, skip=(0, 1, 1), multiplier=1e3)
+                bd = {"fix": fem.Boundary(f2[0], fx=0.0), "move": fem.Boundary(f2[0], mask=np.arange(mesh2.npoints) == c, value=np.array([0.1 * L[0], 0.0, 0.0]))}
+                d0, d1 = fem.dof.partition(f2, bd)
+                e0 = fem.dof.apply(f2, bd, d0)
+                res = fem.newtonrhapson(items=[b2, mpc], dof0=d0, dof1=d1, ext0=e0, tol=1e-8, verbose=False)
+                rr = b2.assemble.vector(res.x).toarray().ravel() + mpc.assemble.vector(res.x).toarray().ravel()
+                run.compare(m, "clause=equilibrium-of-the-sum-of-items[constraint]", float(np.linalg.norm(rr[d1]) / (1e-3 + np.linalg.norm(rr[d0]))) / 1e-8, 1.01,
+                            "solid + multi-point constraint: the sum of the item residuals is not below the tolerance", unit="styles:constraint", config=("mpc", fam))
+                ux = res.x[0].values
+                run.compare(m, "clause=constraint-transmits-the-motion", float(np.max(np.abs(ux[face, 0] - ux[c, 0]))) / (0.1 * L[0]), 1e-2,
+                            "the constrained face does not follow the centre point (penalty 1e3)", unit="styles:constraint")
+            # (c) a linear problem must be allowed to converge at the last permitted iteration
+            fl = problems.field_for(fam, mesh, kind)
+            bl, lcl = fem.dof.uniaxial(fl, clamped=True, move=float(rng.uniform(-0.1, 0.1)))
+            uml = fem.LinearElastic(E=2.0, nu=0.3)
+            try:
+                rl = fem.newtonrhapson(items=[fem.SolidBody(uml, fl)], maxiter=1, tol=1e-8, verbose=False, **lcl)
+                ok = bool(rl.success) and int(rl.iterations) == 1
+            except ValueError as exc:
+                ok = False
+            if ok:
+                run.ok(m, unit="styles:converged-at-maxiter", config=("maxiter=1", fam))
+            else:
+                run.fail(m, "clause=linear-problem-with-maxiter=1", "a linear problem that converges with its first update is not returned when maxiter=1")
+            # (d) threaded assembly and another linear solver: same post-conditions (judged by the monitor) and the same solution
+            fp = problems.field_for(fam, mesh, kind)
+            bp, lcp = fem.dof.uniaxial(fp, clamped=True, move=0.1 * L[0])
+            bodyp = fem.SolidBody(fem.NeoHooke(mu=1.0, bulk=3.0), fp)
+            r1 = fem.newtonrhapson(items=[bodyp], tol=1e-10, verbose=False, kwargs={"parallel": True}, **lcp)
+            fq = problems.field_for(fam, mesh, kind)
+            bq, lcq = fem.dof.uniaxial(fq, clamped=True, move=0.1 * L[0])
+            r2 = fem.newtonrhapson(items=[fem.SolidBody(fem.NeoHooke(mu=1.0, bulk=3.0), fq)], tol=1e-10, verbose=False,
+                                   solver=lambda A, b: np.linalg.solve(A.toarray(), b), **lcq)
+            run.compare(m, "clause=parallel-and-dense-solver-give-the-same-solution", maxabs(r1.x[0].values - r2.x[0].values) / (0.1 * L[0]), 1e-8,
+                        "threaded assembly / another linear solver converge to another solution", unit="styles:parallel+solver", config=("parallel+solver", fam))
+            # (e) Newton without items: x0 + the material as argument (default fun/jac)
+            fo = problems.field_for(fam, mesh, "3d" if d == 3 else "planestrain")
+            bo, lco = fem.dof.uniaxial(fo, clamped=True, move=0.1 * L[0])
+            umo = fem.NeoHooke(mu=1.0, bulk=3.0)
+            ro = fem.newtonrhapson(fo, args=(umo,), tol=1e-9, verbose=False, **lco)
+            xo = np.concatenate([f.values.ravel() for f in ro.x.fields])
+            run.compare(m, "clause=no-items-prescribed-values", float(np.max(np.abs(xo[lco["dof0"]] - lco["ext0"]))), 1e-14,
+                        "newtonrhapson(x0, args=(umat,)): prescribed values not carried", unit="styles:no-items", config=("no-items", fam))
+            fr = fem.SolidBody(umo, ro.x).assemble.vector(ro.x).toarray().ravel()
+            run.compare(m, "clause=no-items-equilibrium", float(np.linalg.norm(fr[lco["dof1"]]) / (1e-3 + np.linalg.norm(fr[lco["dof0"]]))) / 1e-9, 1.01,
+                        "newtonrhapson(x0, args=(umat,)): independently assembled residual exceeds the tolerance", unit="styles:no-items")
+            run.compare(m, "clause=no-items-equals-items-style", maxabs(ro.x[0].values - r2.x[0].values) / (0.1 * L[0]), 1e-7,
+                        "the two call styles converge to different solutions of the same problem", unit="styles:no-items")
+            # (f) the generic array Newton (as used inside materials)
+            a = float(rng.uniform(1.5, 5))
+            rg = fem.newtonrhapson(np.array([1.0]), fun=lambda x: x ** 2 - a, jac=lambda x: np.diag(2 * x), solve=np.linalg.solve, tol=1e-12, verbose=False)
+            run.compare(m, "clause=array-newton-root", abs(float(rg.x[0]) ** 2 - a), 1e-9, "generic array Newton reports success away from the root",
+                        unit="styles:array-newton", config=("array-newton",))
+            try:
+                fem.newtonrhapson(np.array([1.0]), fun=lambda x: x ** 2 + 1.0, jac=lambda x: np.diag(2 * x), solve=np.linalg.solve, tol=1e-12, maxiter=8, verbose=False)
+                run.fail(m, "clause=array-newton-raises", "generic array Newton returned for a function without a root")
+            except ValueError:
+                run.ok(m, unit="styles:array-newton-raises")
+        finally:
+            attach.detach_all()
+    return fn
+
+
 def case_linear(fam, rep):
     def fn(run):
         import felupe as fem
@@ -252,6 +352,8 @@ def cases(tier, seed):
     for fam in ("hexahedron", "quad", "tetra10", "triangle"):
         for rep in range(reps):
             out.append(("linear:%s:%d" % (fam, rep), case_linear(fam, rep)))
+    for rep in range(3 if tier == "quick" else 9):
+        out.append(("styles:%d" % rep, case_styles(rep)))
     for mode in ("maxiter", "nan"):
         for rep in range(3 if tier == "quick" else 9):
             out.append(("failure:%s:%d" % (mode, rep), case_failure(mode, rep)))
@@ -261,7 +363,8 @@ def cases(tier, seed):
 SPEC = {
     "required_units": ["success:3d", "success:planestrain", "success:axisymmetric", "success:mixed", "success:ni", "success:with-force",
                        "success:with-pointload", "success:with-pressure", "success:with-dualboundary", "success:boundary-honoured:field0",
-                       "success:boundary-honoured:field2", "success:continuation", "success:unload-to-zero", "linear:unload-one-iteration", "success:prescribed-values",
+                       "success:boundary-honoured:field2", "styles:no-ext0", "styles:constraint", "styles:converged-at-maxiter", "styles:parallel+solver",
+                       "styles:no-items", "styles:array-newton", "styles:array-newton-raises", "success:continuation", "success:unload-to-zero", "linear:unload-one-iteration", "success:prescribed-values",
                        "success:reported-residual", "success:reassembly", "success:reassembly-settled", "success:fun", "success:commit",
                        "solve:reduced-system", "solve:prescribed-increment", "linear:one-iteration", "failure:maxiter",
                        "failure:no-commit", "failure:raises:ValueError"],
